@@ -1,6 +1,7 @@
 (* C10 — evmutil: converted assets are always fully backed on the other side.
-   Property theorems only; proofs are in Proofs/Evmutil.v. *)
-From Kava Require Import Base.Prelude Model.Erc20 Model.Evmutil Proofs.Evmutil.
+   Property theorems only; proofs are in Proofs/Evmutil.v and Proofs/EvmutilNR.v (pairs whose token
+   returns false instead of reverting). *)
+From Kava Require Import Base.Prelude Model.Erc20 Model.Evmutil Model.EvmutilNR Proofs.Evmutil Proofs.EvmutilNR.
 
 (** * Backing, for all histories *)
 
@@ -459,5 +460,94 @@ Proof.
   cbv zeta. split.
   - repeat constructor; unfold op_wf; cbn; try discriminate.
     intros l H. vm_compute in H. inversion H; subst. repeat constructor; cbn; lia.
+  - repeat split; vm_compute; reflexivity.
+Qed.
+
+(** * Pairs whose token does not revert: an old-style ERC20 whose transfer() returns false and moves
+      nothing when the sender's balance is too small (Model/EvmutilNR.v: [nr c] marks the table
+      contracts with that bytecode; [xstep] runs their semantics, every other operation is [step]) *)
+
+(* THE BALANCE-DELTA CHECK: a conversion whose lock moved nothing is refused and changes nothing.
+   Whatever the initiator holds below the amount to lock — nothing at all, one unit less — the
+   transfer returns false, the balance read back is not start - amount, ConvertERC20ToCoin fails. *)
+Theorem C10_lock_that_moved_nothing_is_refused :
+  forall e nr s dr i r c d x, nr c = true ->
+  pair_of_ctr s c = Some d -> amount_ok dr x = true ->
+  0 <= ebal (erc s c) i < lock_of e d x ->
+  xstep e nr s (ConvERC20ToCoin dr i r c x) = Err /\ xstep' e nr s (ConvERC20ToCoin dr i r c x) = s.
+Proof.
+  intros e nr s dr i r c d x Hc Hp Ha Hlt.
+  assert (E : xstep e nr s (ConvERC20ToCoin dr i r c x) = Err).
+  { cbn [xstep]. rewrite Hc, Ha. apply (lock_moved_nothing_refused e s i r c d x Hp); [|exact Hlt].
+    apply amount_ok_range in Ha. exact Ha. }
+  split; [exact E|]. unfold xstep'. now rewrite E.
+Qed.
+Print Assumptions C10_lock_that_moved_nothing_is_refused.
+
+(* conversely a successful conversion debited the initiator exactly the amount locked *)
+Theorem C10_lock_debits_exactly :
+  forall e s i r c x s', conv_erc20_to_coin_nr e s i r c x = Ok s' tt ->
+  exists d, pair_of_ctr s c = Some d /\ ebal (erc s' c) i = ebal (erc s c) i - lock_of e d x.
+Proof. exact lock_ok_debits_exactly. Qed.
+Print Assumptions C10_lock_debits_exactly.
+
+(* every operation on such a pair is refused, or is the operation of Model/Evmutil.v, or is a
+   transfer() that returned false (the ledger is written back unchanged) *)
+Theorem C10_old_style_token_cases :
+  forall e nr s o, nr_wf e nr -> nonneg s ->
+  xstep e nr s o = Err \/ xstep e nr s o = step e s o \/
+  exists c, nr c = true /\ (c < next s)%nat /\ xstep e nr s o = Ok (set_erc s c (erc s c)) tt.
+Proof. exact xstep_cases. Qed.
+Print Assumptions C10_old_style_token_cases.
+
+(* hence the module invariant, the value ranges and the backing of every pair — the old-style ones
+   included — hold after every history of transactions *)
+Theorem C10_invariant_all_histories_old_style_tokens :
+  forall e nr txs s, env_wf e -> nr_wf e nr -> Inv e s -> nonneg s -> Forall (Forall (op_wf e)) txs ->
+  Inv e (xrun_txs e nr s txs) /\ nonneg (xrun_txs e nr s txs).
+Proof. intros e nr txs s. exact (xrun_txs_inv e nr txs s). Qed.
+Print Assumptions C10_invariant_all_histories_old_style_tokens.
+
+Theorem C10_old_style_pair_backed :
+  forall e nr txs s c, env_wf e -> nr_wf e nr -> Inv e s -> nonneg s -> Forall (Forall (op_wf e)) txs ->
+  nr c = true ->
+  sup (xrun_txs e nr s txs) (pair_denom e c) * kf e (pair_denom e c) <= ebal (erc (xrun_txs e nr s txs) c) (macc e).
+Proof. intros e nr txs s c H1 H2 H3 H4 H5 H6. exact (nr_pair_backed e nr txs s c H1 H2 H3 H4 H5 H6). Qed.
+Print Assumptions C10_old_style_pair_backed.
+
+Theorem C10_failed_changes_nothing_old_style :
+  forall e nr s o, (forall s' u, xstep e nr s o <> Ok s' u) -> xstep' e nr s o = s.
+Proof. exact xstep_failed_changes_nothing. Qed.
+Print Assumptions C10_failed_changes_nothing_old_style.
+
+(* What the EXACT comparison protects against: with the expected end balance clamped at zero
+   ("balances are uint256") an initiator holding no tokens converts 500 units — coins are minted,
+   nothing is locked (supply 1100 over 600 locked tokens) — while the model of the code refuses. *)
+Theorem C10_clamped_check_mints_unbacked :
+  Inv nrw_env nrw_init /\ nonneg nrw_init /\
+  conv_erc20_to_coin_nr nrw_env nrw_init 1%nat 1%nat 0%nat 500 = Err /\
+  match conv_erc20_to_coin_nr_clamped nrw_env nrw_init 1%nat 1%nat 0%nat 500 with
+  | Ok s' _ => sup s' 1%nat = 1100 /\ ebal (erc s' 0%nat) 2%nat = 600 /\ bal s' 1%nat 1%nat = 500
+  | _ => False
+  end.
+Proof. exact clamped_check_mints_unbacked. Qed.
+Print Assumptions C10_clamped_check_mints_unbacked.
+
+(* non-vacuity: in the same world the holder of 400 tokens converts exactly 400 (accepted), 401 is
+   refused, and a plain transfer of more than the balance "succeeds" moving nothing *)
+Example C10_old_style_nonvacuous :
+  nr_wf nrw_env nrw_nr /\
+  class_of (xstep nrw_env nrw_nr nrw_init (ConvERC20ToCoin false 0 1 0 401)%nat) = RErr /\
+  match xstep nrw_env nrw_nr nrw_init (ConvERC20ToCoin false 0 1 0 400)%nat with
+  | Ok s' _ => sup s' 1%nat = 1000 /\ ebal (erc s' 0%nat) 2%nat = 1000 /\ ebal (erc s' 0%nat) 0%nat = 0
+  | _ => False
+  end /\
+  match xstep nrw_env nrw_nr nrw_init (ErcTransfer 0 0 1 401)%nat with
+  | Ok s' _ => ebal (erc s' 0%nat) 0%nat = 400 /\ ebal (erc s' 0%nat) 1%nat = 0
+  | _ => False
+  end.
+Proof.
+  split.
+  - intros c Hc. unfold nrw_nr in Hc. apply Nat.eqb_eq in Hc. subst. split; [cbn; lia|reflexivity].
   - repeat split; vm_compute; reflexivity.
 Qed.
